@@ -32,7 +32,17 @@
    cacheexplore <progs> <fvals> <deps> <max>        whole state space at full granularity: f at most once per key, no
        two conflicting plain accesses enabled together, returned values, psi decreases; deadlock-freedom when
        deps is acyclic (for cyclic deps the number of deadlocked states is reported: deadlocks=<n>)
-   cachecover <progs> <fvals> <deps> <max>          as workcover, full granularity *)
+   cachecover <progs> <fvals> <deps> <max>          as workcover, full granularity
+   nested <n> <graph> <inits> <inner ns> <inner graph> <inner inits> <sched>
+       NESTED Works (ParWorkMulti.nstep): the user function of the outer Work, after its Adds, runs a fresh inner
+       Work (inner graph / inits; Do(n_i) with n_i = the (i mod length)-th entry of <inner ns>) and returns when its
+       Do returned.  Threads carry GLOBAL ids as on the code: 0..n-1 the outer runners, then the goroutines of each
+       inner Do in the order in which the inner Works are created; an outer runner inside its inner Do acts as
+       thread 0 of that inner Work.  sched = g:c.g:c... (c = Intn answer, or the woken runner's id LOCAL to its
+       Work).  Answer
+         ok <obj>|<ev>/<mask>,... | fin=<outer items in order of f-return> done=<nfinal> phi=<nphi> inv=ok|FAIL@k:<what>
+       obj = o (outer) or i<item>; events as for `work` with thread ids local to the object, and o|C<g>:<item> =
+       outer runner g creates the inner Work of <item> (Do's prologue); mask = enabled GLOBAL thread ids. *)
 
 let ios = int_of_string
 let split_on c s = if s = "-" || s = "" then [] else String.split_on_char c s
@@ -529,6 +539,102 @@ let do_cachecover ps fvs ds maxstates =
       (if paths = [] then "-" else String.concat ";" (List.map dots paths))
   end
 
+(* ---------------------------------------------------------------- nested Works (ParWorkMulti) *)
+let do_nested n gs inits inner_ns igs iinits sched =
+  let g = graph_of gs and ig = graph_of igs in
+  let ch = children_of g and ich = children_of ig in
+  let nn = nat_of_int n in
+  let u = universe g and iu = universe ig in
+  let ins = Array.of_list (ints inner_ns) in
+  let inner_n i = ins.(i mod Array.length ins) in
+  let inner (i : nat) : wcfg =
+    { wn = nat_of_int (inner_n (int_of_nat i)); wchildren = ich; winits = nats iinits; wU = iu } in
+  let ns = ref (ninit nn (nats inits)) in
+  (* global thread ids of the inner goroutines *)
+  let owner : (int, int * int) Hashtbl.t = Hashtbl.create 16 in
+  let next = ref n in
+  let created = ref [] in
+  let inner_of_outer_thread (s : nstate) t =
+    (* Some i: outer runner t is inside the Do of the existing inner Work of i, which has not returned *)
+    match at_inner_call ch s.outer (nat_of_int t) with
+    | Some i -> (match s.inn i with
+                 | Some si -> (match si.pcs with Done :: _ -> None | _ -> Some (int_of_nat i))
+                 | None -> None)
+    | None -> None in
+  let has_step (s : nstate) l = nstep nn ch inner s l <> None in
+  let enabled_global (s : nstate) gid =
+    (* some choice gives a step *)
+    let any mk = let r = ref false in for c = 0 to 12 do if has_step s (mk (nat_of_int c)) then r := true done; !r in
+    if gid < n then
+      (match inner_of_outer_thread s gid with
+       | Some i -> any (fun c -> LInner (nat_of_int i, nat_of_int 0, c))
+       | None -> any (fun c -> LOuter (nat_of_int gid, c)))
+    else match Hashtbl.find_opt owner gid with
+      | Some (i, t) -> any (fun c -> LInner (nat_of_int i, nat_of_int t, c))
+      | None -> false in
+  let mask (s : nstate) =
+    let m = ref 0 in for gid = 0 to !next - 1 do if enabled_global s gid then m := !m lor (1 lsl gid) done; !m in
+  let evs = ref [] and inv = ref "ok" and bad = ref (-1) in
+  let check k (s : nstate) =
+    if !inv = "ok" && not (safe_state nn s.outer && wakeup_ok s.outer) then inv := Printf.sprintf "FAIL@%d:outer-safe_state" k;
+    List.iter (fun i -> match s.inn (nat_of_int i) with
+      | Some si -> if !inv = "ok" && not (safe_state (nat_of_int (inner_n i)) si && wakeup_ok si) then
+                     inv := Printf.sprintf "FAIL@%d:inner%d-safe_state" k i
+      | None -> if !inv = "ok" then inv := Printf.sprintf "FAIL@%d:inner%d-vanished" k i) !created in
+  check 0 !ns;
+  List.iteri (fun k (gid, c) ->
+    if !bad < 0 then begin
+      let s = !ns in
+      let cn = nat_of_int c in
+      let label, obj =
+        if gid < n then
+          (match inner_of_outer_thread s gid with
+           | Some i -> LInner (nat_of_int i, nat_of_int 0, cn), Some (i, 0)
+           | None -> LOuter (nat_of_int gid, cn), None)
+        else match Hashtbl.find_opt owner gid with
+          | Some (i, t) -> LInner (nat_of_int i, nat_of_int t, cn), Some (i, t)
+          | None -> LOuter (nat_of_int gid, cn), None (* not a thread: nstep answers None *) in
+      match nstep nn ch inner s label with
+      | None -> bad := k
+      | Some s' ->
+          let ev = match obj with
+            | Some (i, t) ->
+                (match s.inn (nat_of_int i), s'.inn (nat_of_int i) with
+                 | Some si, Some si' -> Printf.sprintf "i%d|%s" i (work_event (inner_n i) ig si si' t)
+                 | _ -> "?")
+            | None ->
+                (match at_inner_call ch s.outer (nat_of_int gid) with
+                 | Some i when s.inn i = None ->
+                     let ii = int_of_nat i in
+                     for t = 1 to inner_n ii - 1 do Hashtbl.replace owner !next (ii, t); incr next done;
+                     created := ii :: !created;
+                     Printf.sprintf "o|C%d:%d" gid ii
+                 | _ -> "o|" ^ work_event n g s.outer s'.outer gid) in
+          if !inv = "ok" && not (int_of_nat (nphi nn ch inner u s') < int_of_nat (nphi nn ch inner u s)) then
+            inv := Printf.sprintf "FAIL@%d:nphi" k;
+          check (k + 1) s';
+          evs := Printf.sprintf "%s/%d" ev (mask s') :: !evs;
+          ns := s'
+    end) (pairs_of sched);
+  if !bad >= 0 then Printf.sprintf "bad %d" !bad
+  else begin
+    let s = !ns in
+    (* nfinal, and its reading: every reachable outer item has an inner Work that ran all its items *)
+    let fin = nfinal s in
+    if fin && !inv = "ok" then begin
+      let want_outer = reach_set g (ints inits) and want_inner = reach_set ig (ints iinits) in
+      if List.sort compare (List.map int_of_nat s.outer.finished) <> want_outer then inv := "FAIL@end:outer-finished";
+      List.iter (fun i -> match s.inn (nat_of_int i) with
+        | Some si -> if List.sort compare (List.map int_of_nat si.finished) <> want_inner || not (all_done si) then
+                       inv := Printf.sprintf "FAIL@end:inner%d-finished" i
+        | None -> inv := Printf.sprintf "FAIL@end:inner%d-missing" i) want_outer
+    end;
+    Printf.sprintf "ok %s | fin=%s done=%b phi=%d inv=%s"
+      (if !evs = [] then "-" else String.concat "," (List.rev !evs))
+      (dots (List.rev_map (fun i -> string_of_int (int_of_nat i)) s.outer.finished))
+      fin (int_of_nat (nphi nn ch inner u s)) !inv
+  end
+
 let () = serve (function
   | ["work"; n; g; i; sch] -> do_work (ios n) g i sch
   | ["workrand"; n; g; i; seed] -> do_workrand (ios n) g i (ios seed)
@@ -538,4 +644,5 @@ let () = serve (function
   | ["cacherand"; mode; p; f; d; seed] -> do_cacherand mode p f d (ios seed)
   | ["cacheexplore"; p; f; d; m] -> do_cacheexplore p f d (ios m)
   | ["cachecover"; p; f; d; m] -> do_cachecover p f d (ios m)
+  | ["nested"; n; g; i; ins; ig; ii; sch] -> do_nested (ios n) g i ins ig ii sch
   | _ -> "BAD-REQUEST")
